@@ -43,6 +43,9 @@ type C13Case struct {
 	Translated bool `json:"translated,omitempty"`
 	// Lenient: a failed statement leaves its transaction usable instead of aborted
 	Lenient bool `json:"lenient,omitempty"`
+	// Retryable: the injected faults are errors the driver calls safe to retry (a pooled
+	// connection found dead before anything was sent)
+	Retryable bool `json:"retryable,omitempty"`
 }
 
 func (c C13Case) String() string {
@@ -63,7 +66,7 @@ func (c C13Case) String() string {
 		}
 		s = append(s, x)
 	}
-	return fmt.Sprintf("[%s] faults=%v translated=%v lenient=%v", strings.Join(s, "; "), c.Faults, c.Translated, c.Lenient)
+	return fmt.Sprintf("[%s] faults=%v translated=%v lenient=%v retryable=%v", strings.Join(s, "; "), c.Faults, c.Translated, c.Lenient, c.Retryable)
 }
 
 type c13Ref struct {
@@ -90,6 +93,7 @@ func runC13(c C13Case) (res c13Result) {
 	srv := pgfake.NewServer()
 	srv.SetFaults(c.Faults)
 	srv.Lenient = c.Lenient
+	srv.Retryable = c.Retryable
 	store := postgres.NewPgDb().WithConnection(srv.Conn())
 	store.SetPrefix(db.DATATYPE_USERDATA)
 	store.SetSession("s")
@@ -590,7 +594,7 @@ var genC13OpDead = rapid.Custom(func(t *rapid.T) C13Op {
 })
 
 func genC13(t *rapid.T) C13Case {
-	c := C13Case{Ops: genSlice(t, genC13OpDead, 1, 25, "ops"), Translated: chancePct(t, 30, "translated"), Lenient: chancePct(t, 30, "lenient")}
+	c := C13Case{Ops: genSlice(t, genC13OpDead, 1, 25, "ops"), Translated: chancePct(t, 30, "translated"), Lenient: chancePct(t, 30, "lenient"), Retryable: chancePct(t, 30, "retryable")}
 	nf := uniformN(t, 3, "nfaults")
 	// roughly three primitive calls per operation
 	for i := 0; i < nf; i++ {
